@@ -837,6 +837,13 @@ func runUnderScheduler(order *simrt.OrderSource, budget int64, f func() Result) 
 	simrt.Active = true
 	ok := s.Run(60 * time.Second)
 	simrt.Active = false
+	if s.UnownedSeen || s.Unowned() {
+		// goroutines the simulator did not start ran during the call (a dependency started
+		// them): this call gives no verdict, and the rest of this process runs the library on
+		// real goroutines, outside the scheduler
+		simrt.RealGo = true
+		return Result{Panic: "run not owned by the simulator"}, true, int64(s.YieldN)
+	}
 	if !ok || s.Deadlock {
 		// stalled or deadlocked among simulated primitives: no result to compare
 		return Result{Panic: "run did not finish (stalled or deadlocked)"}, true, int64(s.YieldN)
